@@ -92,8 +92,10 @@ def _shapes_c08_2(tier):
         top = 6 if tier == "quick" else 10
         if t == ExtensionType.server_name:
             top = min(top, 6)       # host name bytes are decoded one by one
-        if t == ExtensionType.supported_groups and tier == "quick":
-            top = 4
+        if t == ExtensionType.supported_groups:
+            # every group id is looked up in several lists: 4 (quick) / 7
+            # payload bytes is what the path budget allows
+            top = 4 if tier == "quick" else 7
         lens = list(range(0, top + 1))
         if t == ExtensionType.pre_shared_key:
             lens += [12, 13]        # one identity + one binder fit from 12
@@ -435,7 +437,8 @@ def c08_5(I, shape):
 # C08.4  certificate decompression is bounded by the declared length
 # ---------------------------------------------------------------------------
 import tlslite.messages as msgmod
-from tlslite.constants import CertificateCompressionAlgorithm as CCA
+from tlslite.constants import CertificateCompressionAlgorithm as CCA, \
+    CertificateType
 from tlslite.errors import TLSIllegalParameterException as _IllegalParam
 
 
@@ -486,7 +489,10 @@ class _ZlibProxy(object):
 
 
 def _unbounded_impl(data, *limit):
-    ZLIB[0].calls.append(("bounded", limit[0]) if limit
+    # brotli / zstd entry points that take a limit: what a limit of 0 means
+    # is the library's business, so only "a limit is passed and it is the
+    # declared length" is required of them ("bounded-lib")
+    ZLIB[0].calls.append(("bounded-lib", limit[0]) if limit
                          else ("unbounded", None))
     return ZLIB[0]._out()
 
@@ -534,11 +540,13 @@ def c08_4(I, shape):
         I.fail("_decompress raised %s" % type(e).__name__, detail=repr(e))
         return
     for kind, limit in ZLIB[0].calls:
-        I.check(kind == "bounded", "no-unbounded-decompressor-call",
+        I.check(kind != "unbounded", "no-unbounded-decompressor-call",
                 detail=lambda: dict(calls=[k for k, _ in ZLIB[0].calls]))
         if kind == "bounded":
             I.check(AND(limit > 0, limit <= declared),
                     "output-limit-positive-and-at-most-the-declared-length")
+        elif kind == "bounded-lib":
+            I.check(limit == declared, "library-limit-is-the-declared-length")
     if exc is None:
         I.check(len(out) == declared, "result-has-the-declared-length")
         I.check(len(ZLIB[0].calls) == 1, "one-decompressor-call")
